@@ -174,6 +174,40 @@ Definition ast_val (a : ast) : string := match a with Node _ v _ _ => v | Null =
 
 Definition kid (i : nat) (kids : list mml) : option mml := nth_error kids i.
 
+(* the two right-folding loops of analyseNode, over the operands that follow the first one; [an] analyses one child.
+   apply:     "for (auto i = childCount - 2; i > 1; --i)": the operator element is analysed again for every
+              intermediate node (tempAst), the last operand is the innermost right child;
+   piecewise: "for (auto i = childCount - 2; i > 0; --i)": intermediate nodes are PIECEWISE nodes. *)
+Section Chains.
+  Variable an : mml -> flags -> ast * flags.
+  Variable anop : flags -> ast * flags.       (* analysis of the operator element (child 0) into a fresh node *)
+  Fixpoint apply_chain (rs : list mml) (fl : flags) {struct rs} : ast * flags :=
+    match rs with
+    | [] => (Null, fl)
+    | y :: ys =>
+        match ys with
+        | [] => an y fl
+        | _ :: _ =>
+            let '(h', fla) := anop fl in
+            let '(ly, flb) := an y fla in
+            let '(ry, flc) := apply_chain ys flb in
+            (Node (ast_ty h') (ast_val h') ly ry, flc)
+        end
+    end.
+  Fixpoint piecewise_chain (rs : list mml) (fl : flags) {struct rs} : ast * flags :=
+    match rs with
+    | [] => (Null, fl)
+    | y :: ys =>
+        match ys with
+        | [] => an y fl
+        | _ :: _ =>
+            let '(ly, fla) := an y fl in
+            let '(ry, flb) := piecewise_chain ys fla in
+            (Node PIECEWISE "" ly ry, flb)
+        end
+    end.
+End Chains.
+
 (* analyseNode(node, ast, ...).  [pm]: node's parent is <math>; [gp]: node's grandparent is <math>.
    A fresh AnalyserEquationAst has type EQUALITY (analyserequationast_p.h). *)
 Fixpoint analyse (pm gp : bool) (n : mml) (fl : flags) {struct n} : ast * flags :=
@@ -191,20 +225,7 @@ Fixpoint analyse (pm gp : bool) (n : mml) (fl : flags) {struct n} : ast * flags 
             | [] => (Node (ast_ty h) (ast_val h) Null Null, fl1)
             | x :: rest =>
                 let '(l, fl2) := analyse false pm x fl1 in
-                let '(r, fl3) :=
-                  (fix chain (rs : list mml) (fl : flags) {struct rs} : ast * flags :=
-                     match rs with
-                     | [] => (Null, fl)
-                     | y :: ys =>
-                         match ys with
-                         | [] => analyse false pm y fl
-                         | _ :: _ =>
-                             let '(h', fla) := analyse false pm op fl in
-                             let '(ly, flb) := analyse false pm y fla in
-                             let '(ry, flc) := chain ys flb in
-                             (Node (ast_ty h') (ast_val h') ly ry, flc)
-                         end
-                     end) rest fl2 in
+                let '(r, fl3) := apply_chain (analyse false pm) (analyse false pm op) rest fl2 in
                 (Node (ast_ty h) (ast_val h) l r, fl3)
             end
         end
@@ -216,19 +237,7 @@ Fixpoint analyse (pm gp : bool) (n : mml) (fl : flags) {struct n} : ast * flags 
         | [] => (Node PIECEWISE "" Null Null, fl)
         | k0 :: rest =>
             let '(l, fl1) := analyse false pm k0 fl in
-            let '(r, fl2) :=
-              (fix chain (rs : list mml) (fl : flags) {struct rs} : ast * flags :=
-                 match rs with
-                 | [] => (Null, fl)
-                 | y :: ys =>
-                     match ys with
-                     | [] => analyse false pm y fl
-                     | _ :: _ =>
-                         let '(ly, fla) := analyse false pm y fl in
-                         let '(ry, flb) := chain ys fla in
-                         (Node PIECEWISE "" ly ry, flb)
-                     end
-                 end) rest fl1 in
+            let '(r, fl2) := piecewise_chain (analyse false pm) rest fl1 in
             (Node PIECEWISE "" l r, fl2)
         end
       else if name =? "piece" then
@@ -736,3 +745,50 @@ Definition helper_name (h : helper) : string :=
   | HAsech => "asech" | HAcsch => "acsch" | HAcoth => "acoth"
   end.
 Definition flags_bits (fl : flags) : list bool := map (fun h => get_flag h fl) all_helpers.
+
+(** ** MathML shapes on which every child is analysed (what the MathML DTD / the validator let through) *)
+Definition no_kids (n : mml) : bool := match n with El _ (_ :: _) => false | _ => true end.
+
+Definition structural (name : string) : bool :=
+  (name =? "apply") || (name =? "piecewise") || (name =? "piece") || (name =? "otherwise") || (name =? "degree")
+  || (name =? "logbase") || (name =? "bvar").
+
+(* arity: an apply has an operator (an element without children) and at least one operand, a piecewise at least one
+   child, a piece two, otherwise / degree / logbase one, bvar one or two, every other element none *)
+Fixpoint wf_mml (n : mml) : bool :=
+  match n with
+  | El name kids =>
+      (if name =? "apply" then match kids with op :: _ :: _ => no_kids op | _ => false end
+       else if name =? "piecewise" then negb (Nat.eqb (length kids) 0)
+       else if name =? "piece" then Nat.eqb (length kids) 2
+       else if (name =? "otherwise") || (name =? "degree") || (name =? "logbase") then Nat.eqb (length kids) 1
+       else if name =? "bvar" then Nat.eqb (length kids) 1 || Nat.eqb (length kids) 2
+       else Nat.eqb (length kids) 0)
+      && forallb wf_mml kids
+  | _ => true
+  end.
+
+(* the flag an element sets by itself: [gp] = its grandparent is <math> *)
+Definition elem_flag (gp : bool) (name : string) : option helper :=
+  if name =? "eq" then (if gp then None else Some HEq)
+  else if structural name then None
+  else helper_of_ty (leaf_ty name).
+
+Definition opt_helper_is (o : option helper) (h : helper) : bool :=
+  match o with Some g => helper_beq g h | None => false end.
+
+(* the element of helper h occurs in the tree (an `eq` that is the equality of an equation does not count) *)
+Fixpoint uses (pm gp : bool) (h : helper) (n : mml) : bool :=
+  match n with
+  | El name kids => opt_helper_is (elem_flag gp name) h || existsb (uses false pm h) kids
+  | _ => false
+  end.
+
+(* the element name whose occurrence sets the flag of h *)
+Definition element_name (h : helper) : string :=
+  match h with
+  | HEq => "eq" | HNeq => "neq" | HLt => "lt" | HLeq => "leq" | HGt => "gt" | HGeq => "geq" | HAnd => "and" | HOr => "or"
+  | HXor => "xor" | HNot => "not" | HMin => "min" | HMax => "max" | HSec => "sec" | HCsc => "csc" | HCot => "cot"
+  | HSech => "sech" | HCsch => "csch" | HCoth => "coth" | HAsec => "arcsec" | HAcsc => "arccsc" | HAcot => "arccot"
+  | HAsech => "arcsech" | HAcsch => "arccsch" | HAcoth => "arccoth"
+  end.
